@@ -70,7 +70,144 @@ fn cmp_name(op: &str) -> Result<&'static str, String> {
     }
 }
 
+/// every `fn` of a file (free, impl, trait default, nested in modules): name -> body
+struct AllFns<'a> {
+    v: Vec<(String, &'a syn::Block)>,
+}
+impl<'ast> Visit<'ast> for AllFns<'ast> {
+    fn visit_item_fn(&mut self, f: &'ast syn::ItemFn) {
+        self.v.push((f.sig.ident.to_string(), &*f.block));
+        syn::visit::visit_item_fn(self, f);
+    }
+    fn visit_impl_item_fn(&mut self, f: &'ast syn::ImplItemFn) {
+        self.v.push((f.sig.ident.to_string(), &f.block));
+        syn::visit::visit_impl_item_fn(self, f);
+    }
+}
+
+fn rs_files(dir: &std::path::Path, out: &mut Vec<PathBuf>) {
+    let Ok(rd) = std::fs::read_dir(dir) else { return };
+    let mut es: Vec<_> = rd.filter_map(|e| e.ok()).map(|e| e.path()).collect();
+    es.sort();
+    for p in es {
+        let name = p.file_name().map(|n| n.to_string_lossy().to_string()).unwrap_or_default();
+        if p.is_dir() {
+            // the crate that defines SignedRegister is modelled in its own right; build output, VCS data and the
+            // cfg-guarded verification hooks are not production callers
+            if name == "target" || name == ".git" || name == "ant-registers" || name == "verif" {
+                continue;
+            }
+            rs_files(&p, out);
+        } else if name.ends_with(".rs") {
+            out.push(p);
+        }
+    }
+}
+
+/// Call-site table for the two UNVERIFIED ways into a `SignedRegister` that stay public: `merge` and
+/// `SignedRegister::new(.., ops)`. Every file of /repo outside ant-registers that mentions `SignedRegister` is read.
+/// * `.merge(` inside a function: `true` only on the shape
+///     `match R.verify() { Ok(_) => { C.push(R); } … }` (the single `C.push` of the function) followed by
+///     `C.iter().fold(C[0].clone(), |mut acc, x| { … acc.merge(x) … })` — every register merged has passed `verify`;
+///   `false` only when the function does not call `.verify()` at all; any other shape is refused.
+/// * `SignedRegister::new(a, b, ops)`: `true` only when `ops` is literally `BTreeSet::new()`; `false` otherwise.
+fn call_sites(repo: &PathBuf) -> Result<(Vec<(String, bool)>, Vec<(String, bool)>), String> {
+    let mut files = vec![];
+    rs_files(repo, &mut files);
+    let mut merges = vec![];
+    let mut news = vec![];
+    let re_match = regex::Regex::new(r"match(\w+)\.verify\(\)\{Ok\(_\)=>\{(\w+)\.push\((\w+)\);\}").map_err(|e| e.to_string())?;
+    for p in files {
+        let Ok(src) = std::fs::read_to_string(&p) else { continue };
+        if !src.contains("SignedRegister") {
+            continue;
+        }
+        let rel = p.strip_prefix(repo).unwrap_or(&p).display().to_string();
+        let file = syn::parse_file(&src).map_err(|e| format!("{rel}: {e}"))?;
+        let mut fns = AllFns { v: vec![] };
+        fns.visit_file(&file);
+        for (name, body) in fns.v {
+            let c = calls_in_block(body);
+            let t = body.to_token_stream().to_string().replace(' ', "");
+            if c.methods.iter().any(|m| m == "merge") {
+                let site = format!("{rel}::{name}");
+                let verified = if let Some(cap) = re_match.captures(&t) {
+                    let (r, coll, pushed) = (&cap[1], &cap[2], &cap[3]);
+                    let fold = format!("{coll}.iter().fold({coll}[0].clone(),|mutacc,x|{{ifletErr(e)=acc.merge(x)");
+                    if r == pushed
+                        && t.matches(&format!("{coll}.push(")).count() == 1
+                        && !t.contains(&format!("{coll}.insert("))
+                        && !t.contains(&format!("{coll}.extend("))
+                        && t.matches(".merge(").count() == 1
+                        && t.contains(&fold)
+                    {
+                        true
+                    } else {
+                        return Err(format!("{site}: `.merge(` next to a `verify()` match, but not the recognised collect-verified-then-fold shape"));
+                    }
+                } else if !c.methods.iter().any(|m| m == "verify") {
+                    false
+                } else {
+                    return Err(format!("{site}: `.merge(` and `.verify()` in one function, but not the recognised collect-verified-then-fold shape"));
+                };
+                merges.push((site, verified));
+            }
+            let mut from = 0;
+            while let Some(i) = t[from..].find("SignedRegister::new(") {
+                let start = from + i + "SignedRegister::new(".len();
+                // the argument list up to the matching parenthesis
+                let mut depth = 1;
+                let mut end = start;
+                for (k, ch) in t[start..].char_indices() {
+                    match ch {
+                        '(' | '[' | '{' => depth += 1,
+                        ')' | ']' | '}' => {
+                            depth -= 1;
+                            if depth == 0 {
+                                end = start + k;
+                                break;
+                            }
+                        }
+                        _ => {}
+                    }
+                }
+                let args = &t[start..end];
+                news.push((format!("{rel}::{name}"), args.ends_with(",BTreeSet::new()") || args.ends_with(",BTreeSet::new(),")));
+                from = end;
+            }
+        }
+    }
+    merges.sort();
+    merges.dedup();
+    news.sort();
+    news.dedup();
+    Ok((merges, news))
+}
+
+/// autonomi `Register::write_atop` (the only production caller of `add_op`). Two-sided:
+/// `true` only on the repaired shape (the entry is written to a CLONE of the CRDT half, `add_op`'s error is propagated,
+/// the clone replaces the CRDT half afterwards); `false` only on the old shape (`self.crdt_reg.write(..)` applied in
+/// place, then `let _ = self.signed_reg.add_op(op);`); anything else is refused.
+fn client_write_propagates(repo: &PathBuf) -> Result<bool, String> {
+    let rel = "autonomi/src/client/registers.rs";
+    let file = parse_file(&repo.join(rel))?;
+    let f = impl_fn(&file, "Register", None, "write_atop")?;
+    let t = f.block.to_token_stream().to_string().replace(' ', "");
+    let in_place = t.contains("self.crdt_reg.write(");
+    let discarded = t.contains("let_=self.signed_reg.add_op(op);");
+    let on_clone = t.contains("letmutcrdt_reg=self.crdt_reg.clone();") && t.contains("=crdt_reg.write(");
+    let propagated = t.find("self.signed_reg.add_op(op).map_err(RegisterError::Write)?;");
+    let committed = t.find("self.crdt_reg=crdt_reg;");
+    match (in_place, discarded, on_clone, propagated, committed) {
+        (false, false, true, Some(a), Some(b)) if a < b && t.matches("self.crdt_reg=").count() == 1 => Ok(true),
+        (true, true, false, None, None) => Ok(false),
+        _ => Err(format!("{rel}: write_atop has neither the repaired shape (write on a clone, `add_op(op)…?`, then `self.crdt_reg = crdt_reg`) nor the old one (`self.crdt_reg.write(..)` then `let _ = self.signed_reg.add_op(op)`)")),
+    }
+}
+
 pub fn generate(repo: &PathBuf) -> Result<String, String> {
+    let (merge_sites, new_sites) = call_sites(repo)?;
+    let client_propagates = client_write_propagates(repo)?;
     let rel = "ant-registers/src/register.rs";
     let file = parse_file(&repo.join(rel))?;
     let max_entry = const_value(&file, "MAX_REG_ENTRY_SIZE")?;
@@ -139,6 +276,16 @@ pub fn generate(repo: &PathBuf) -> Result<String, String> {
     ] {
         s.push_str(&format!("def {n} : Bool := {}\n", lean_bool(b)));
     }
+    let table = |v: &[(String, bool)]| -> String {
+        let items: Vec<String> = v.iter().map(|(k, b)| format!("({k:?}, {})", lean_bool(*b))).collect();
+        format!("[{}]", items.join(", "))
+    };
+    s.push_str("/-- every function of /repo outside ant-registers that calls `.merge(` in a file mentioning `SignedRegister`, and whether each register it merges has passed `verify()` first (collect-verified-then-fold shape) -/\n");
+    s.push_str(&format!("def mergeCallSites : List (String × Bool) := {}\n", table(&merge_sites)));
+    s.push_str("/-- every `SignedRegister::new(.., ops)` outside ant-registers, and whether `ops` is literally the empty set -/\n");
+    s.push_str(&format!("def signedNewCallSites : List (String × Bool) := {}\n", table(&new_sites)));
+    s.push_str("/-- autonomi `Register::write_atop` propagates `add_op`'s refusal and only then lets the entry into the CRDT half (false: `let _ = add_op(..)` after the entry was applied to the CRDT half in place) -/\n");
+    s.push_str(&format!("def clientWritePropagates : Bool := {}\n", lean_bool(client_propagates)));
     s.push_str("end SafeNet.Gen.Register\n");
     Ok(s)
 }
